@@ -34,6 +34,7 @@ type World struct {
 	SpecList  []*SpecFunc
 	Axioms    []*Axiom
 	FieldRanges map[string]FieldRange
+	MapSums     map[string]MapSum // map type (types.Type.String()) -> ghost weighted sum declaration
 	FieldInvs   []*FieldInv
 
 	Rewrites []string
@@ -98,7 +99,7 @@ func rewriteSplitSeq(fset *token.FileSet, f *ast.File, w *World) {
 func loadWorld(repo, verif string, patterns []string, overlay map[string][]byte) (*World, error) {
 	w := &World{RepoDir: repo, VerifDir: verif, Fset: token.NewFileSet(), Pkgs: map[string]*packages.Package{},
 		SSAPkgs: map[string]*ssa.Package{}, Contracts: map[string]*Contract{}, Stubs: map[string]*Contract{},
-		Specs: map[string]*SpecFunc{}, modCache: map[*ssa.Function]*modSet{}, FieldRanges: map[string]FieldRange{}}
+		Specs: map[string]*SpecFunc{}, modCache: map[*ssa.Function]*modSet{}, FieldRanges: map[string]FieldRange{}, MapSums: map[string]MapSum{}}
 	cfg := &packages.Config{
 		Mode:       packages.LoadAllSyntax,
 		Dir:        repo,
@@ -253,4 +254,15 @@ func shortPkg(path string) string {
 func relPos(p token.Position) string {
 	f := strings.TrimPrefix(p.Filename, "/repo/")
 	return fmt.Sprintf("%s:%d", f, p.Line)
+}
+
+
+// MapSum declares a ghost "sum of weights of the values of a map" for one map type:  mapsum <name> <weight spec> <map type>
+// The weight is a spec function of the value alone (assumed non-negative by an axiom in the spec file). The engine relates the
+// sum before and after every insertion and deletion on maps of that type (ground facts); contracts read it as mapsum(m).
+type MapSum struct {
+	Name   string
+	Weight string
+	File   string
+	Line   int
 }
